@@ -71,7 +71,11 @@ def run(ctx):
         "theorems are over the reals / any arithmetic with exact integer embedding; binary64 by correspondence"]
     # theorems incl. safe execution of the regenerated MiniC program; tie of the translator and the
     # interpreter with every compiled kernel (None = all kernels of harness/kernels_tie.py)
-    proved = cm.prove_with_kernels(ctx, None, extra_targets=["Model/SafetyCases.vo"])
+    proved = cm.prove_with_kernels(ctx, None, extractors=["c05", "minic", "minic_chk"],
+                                   extra_targets=["Model/SafetyCases.vo"])
+    # the overflow-checked translation (program_chk) against the compiled kernels as well
+    from harness import kernels_tie
+    kernels_tie.check(ctx, None, checked=True)
     rng = ctx.rng
     t0 = time.time()
     klib = nat.build_klib_san()
